@@ -215,7 +215,12 @@ func init() {
 			// 150000 executions stops there and the check reports exhaustive:false
 			shards, maxExecs = 4, 150000
 		}
-		schedmc.RunFamily(c, "C07", bound, shards, maxExecs)
+		if c.Tier == "thorough" {
+			// bound 2 for every program first (no cap), then bound 3 as far as the budget goes
+			schedmc.RunFamilyIter(c, "C07", 2, bound, shards, maxExecs)
+		} else {
+			schedmc.RunFamily(c, "C07", bound, shards, maxExecs)
+		}
 		c.Cov["traces_validated_against_impl"] = 0
 		c.Assumef("sibling RPCs of one errgroup fan-out run in call order; data races are outside the cooperative scheduler's sequentially consistent model")
 	}})
